@@ -273,3 +273,138 @@ func (e *FE) statusCond(p *Path, cond ssa.Value, success bool) Tri {
 	}
 	return Unknown
 }
+
+// ---- representative-valuation oracle --------------------------------------------------------------
+// A case assigns one representative integer to each leaf term of the compared operands (one case per
+// ordering class); branch conditions that compare such terms are then decided, everything else forks.
+
+type valCase map[string]int64
+
+func (c *Ctx) evalInt(p *Path, v ssa.Value, vals valCase, written map[string]bool, d int) (int64, bool) {
+	if d > 8 {
+		return 0, false
+	}
+	v = p.Resolve(v)
+	switch x := v.(type) {
+	case *ssa.Const:
+		if x.Value == nil {
+			return 0, false
+		}
+		if i, ok := constInt(x); ok {
+			return i, true
+		}
+		return 0, false
+	case *ssa.BinOp:
+		l, ok1 := c.evalInt(p, x.X, vals, written, d+1)
+		r, ok2 := c.evalInt(p, x.Y, vals, written, d+1)
+		if !ok1 || !ok2 {
+			return 0, false
+		}
+		switch x.Op {
+		case token.ADD:
+			return l + r, true
+		case token.SUB:
+			return l - r, true
+		case token.MUL:
+			return l * r, true
+		case token.AND:
+			return l & r, true
+		case token.OR:
+			return l | r, true
+		case token.SHL:
+			if r >= 0 && r < 62 {
+				return l << uint(r), true
+			}
+		}
+		return 0, false
+	case *ssa.Convert:
+		return c.evalInt(p, x.X, vals, written, d+1)
+	case *ssa.ChangeType:
+		return c.evalInt(p, x.X, vals, written, d+1)
+	}
+	t := c.Term(v)
+	if written != nil && written[t] {
+		return 0, false
+	}
+	if i, ok := vals[t]; ok {
+		return i, true
+	}
+	return 0, false
+}
+
+func constInt(k *ssa.Const) (int64, bool) {
+	if k.Value == nil {
+		return 0, false
+	}
+	s := k.Value.ExactString()
+	var i int64
+	neg := false
+	if len(s) > 0 && s[0] == '-' {
+		neg = true
+		s = s[1:]
+	}
+	if len(s) == 0 {
+		return 0, false
+	}
+	for _, ch := range s {
+		if ch < '0' || ch > '9' {
+			return 0, false
+		}
+		i = i*10 + int64(ch-'0')
+	}
+	if neg {
+		i = -i
+	}
+	return i, true
+}
+
+// valOracle decides comparisons between terms with representative values; boolean terms can be given
+// in bools (term -> truth).
+func (c *Ctx) valOracle(vals valCase, bools map[string]bool) Oracle {
+	var eval func(p *Path, cond ssa.Value, d int) Tri
+	eval = func(p *Path, cond ssa.Value, d int) Tri {
+		if d > 8 {
+			return Unknown
+		}
+		v := p.Resolve(cond)
+		switch x := v.(type) {
+		case *ssa.UnOp:
+			if x.Op == token.NOT {
+				return eval(p, x.X, d+1).not()
+			}
+		case *ssa.BinOp:
+			// locations written earlier on this path are no longer described by the case
+			written := map[string]bool{}
+			for _, in := range p.Instrs {
+				if st, ok := in.(*ssa.Store); ok {
+					written[c.AddrPath(st.Addr)] = true
+				}
+			}
+			l, ok1 := c.evalInt(p, x.X, vals, written, 0)
+			r, ok2 := c.evalInt(p, x.Y, vals, written, 0)
+			if ok1 && ok2 {
+				switch x.Op {
+				case token.EQL:
+					return triOf(l == r)
+				case token.NEQ:
+					return triOf(l != r)
+				case token.LSS:
+					return triOf(l < r)
+				case token.LEQ:
+					return triOf(l <= r)
+				case token.GTR:
+					return triOf(l > r)
+				case token.GEQ:
+					return triOf(l >= r)
+				}
+			}
+		}
+		if bools != nil {
+			if b, ok := bools[c.Term(v)]; ok {
+				return triOf(b)
+			}
+		}
+		return Unknown
+	}
+	return func(p *Path, cond ssa.Value) Tri { return eval(p, cond, 0) }
+}
